@@ -1,4 +1,5 @@
 """C12 - step retries: attempts counted exactly, bounded, durably scheduled; packaged strategies within bounds."""
+import copy
 import random
 
 from checks.direct_strategies import run_retry_direct
@@ -38,11 +39,45 @@ def explicit(tier, seed):
                 i += 1
 
 
+def more_cases(tier, seed):
+    """(a) step functions failing with the SDK's own error classes (a step wrapping an SDK call may well let such an error escape): the
+    strategy decides about them like about any other error; (b) a step inside a child context (nested twice, in a branch) exhausts its
+    retries, the workflow catches the error INSIDE the context and goes on, later invocations replay the context."""
+    i = 0
+    # (CallbackError and the other ExecutionError subclasses are fatal by design: the step executor re-raises them without asking the strategy)
+    for cls in ("InvocationError", "SerDesError", "ValidationError", "DurableExecutionsError", "StepInterruptedError"):
+        for fails in (2, 99):
+            script = [{"do": "fail", "cls": cls, "msg": "f%d" % j} for j in range(min(fails, 3))]
+            if fails < 99:
+                script.append({"do": "ok", "val": 1})
+            step = {"k": "step", "script": script, "retry": {"decisions": [("retry", 1), ("retry", 2), ("stop",)]}}
+            yield {"label": "retry-sdk-error-class", "prog": {"body": [{"k": "try", "body": step, "catch": "*"}, {"k": "step", "val": "after"}]}, "prog_seed": 5500 + i,
+                   "pattern": {"p": "plain"}, "max_inv": 20, "max_raises": 3}
+            i += 1
+    failing = {"k": "step", "script": [{"do": "fail", "cls": "ValueError", "msg": "always"}], "retry": {"decisions": [("retry", 1), ("stop",)]}}
+    for depth in (1, 2):
+        for wrap in ("top", "branch"):
+            inner = [{"k": "step", "val": 0}, {"k": "try", "body": copy.deepcopy(failing), "catch": "*"}, {"k": "step", "val": "handled"}, {"k": "wait", "s": 1}, {"k": "step", "val": "later"}]
+            for _ in range(depth):
+                inner = [{"k": "child", "body": inner}]
+            body = inner + [{"k": "wait", "s": 1}, {"k": "step", "val": "end"}]
+            if wrap == "branch":
+                body = [{"k": "par", "branches": [{"body": body}, {"body": [{"k": "step", "val": 1}]}], "cfg": {"preset": "all_completed"}}]
+            yield {"label": "declined-step-caught-inside-context", "prog": {"body": body}, "prog_seed": 5550 + i,
+                   "pattern": {"p": "crash_enum", "max_points": 12} if i % 2 else {"p": "plain"}, "max_inv": 30}
+            i += 1
+
+
+def explicit_all(tier, seed):
+    yield from explicit(tier, seed)
+    yield from more_cases(tier, seed)
+
+
 SPEC = Spec(
     PROP,
     level="fault_enumeration",
     gen={"kinds": ["step", "rstep", "rstep", "rstep", "fstep", "wait", "par", "map", "wfcb"]},
-    explicit=explicit,
+    explicit=explicit_all,
     direct=run_retry_direct,
     quick={"plain": 40, "enum": 6, "rand": 20, "async": 10},
     thorough={"plain": 300, "enum": 80, "rand": 300, "async": 150, "perturb": 60},
